@@ -113,3 +113,8 @@
 (declare-fun decE (Int String Int) ErrV)
 (declare-fun decCount (Int String) Int)   ; the number of values before the first failing Decode (io.EOF or a real error)
 (declare-const ioEOF ErrV)
+; json.Number literals: the int64 parse and the float64 parse of the text (strconv)
+(declare-fun numInt64 (String) Int)
+(declare-fun numInt64E (String) ErrV)
+(declare-fun numFloat (String) Int)
+(declare-fun numFloatE (String) ErrV)
